@@ -8,6 +8,7 @@ mod hist;
 mod lex;
 mod man;
 mod parse;
+mod quote;
 mod util;
 mod values;
 mod wrap;
@@ -56,6 +57,7 @@ fn main() {
         "man-replay" => man::man_replay(&input, &out, &div),
         "gen-replay" => gen::gen_replay(&arg(&args, "--defs", ""), &input, &out, &div, &arg(&args, "--work", "/tmp/vh-gen")),
         "gen-show" => gen::gen_show(&arg(&args, "--defs", ""), &arg(&args, "--label", ""), &arg(&args, "--shell", "bash")),
+        "quote-replay" => quote::quote_replay(&input, &out, &div),
         "c04-record" => values::c04_record(seed, n, &out),
         "c20-replay" => wrap::c20_replay(&input, &out, &div),
         "c20-record" => wrap::c20_record(seed, n, arg(&args, "--maxlen", "120").parse().unwrap(), &out),
